@@ -8,6 +8,8 @@ import c01gen
 def kinds():
     K = {}
     K["i32"] = ([("a", "i32"), ("b", "i32"), ("c", "i32")], "i32", "int32", ["a", "b", "c"], ["a", "b", "c"], [])
+    K["i32x5"] = ([("a", "i32"), ("b", "i32"), ("c", "i32"), ("d", "i32"), ("e", "i32")], "i32", "int32",
+                  ["a", "b", "c", "d", "e"], ["a", "b", "c", "d", "e"], [])
     K["i64"] = ([("a", "i64"), ("b", "i64"), ("c", "i64")], "i64", "int64", ["a", "b", "c"], ["a", "b", "c"], [])
     K["u8"] = ([("a", "u8"), ("b", "u8"), ("c", "u8")], "u8", "uint8", ["a", "b", "c"], ["a", "b", "c"], [])
     K["str"] = ([("a", "u8"), ("b", "u8"), ("c", "u8")], "string", "string",
@@ -18,6 +20,8 @@ def kinds():
     K["bool"] = ([("a", "bool"), ("b", "bool"), ("c", "bool")], "bool", "bool", ["a", "b", "c"], ["a", "b", "c"], [])
     K["struct"] = ([("a", "i32"), ("b", "i32"), ("c", "i32")], "vtKey", "vtKey",
                    ["vtKey{a, 1}", "vtKey{b, 1}", "vtKey{1, c}"], ["vtKey{a, 1}", "vtKey{b, 1}", "vtKey{1, c}"], [])
+    K["ptr"] = ([("a", "i32"), ("b", "i32"), ("c", "i32")], "*i32", "*int32",
+                ["&vtS.x", "&vtS.y", "&vtArr[1]", "&vtArr[0]", "&vtT.x"], ["&vtS.x", "&vtS.y", "&vtArr[1]", "&vtArr[0]", "&vtT.x"], [])
     K["iface"] = ([("a", "i32"), ("b", "i32"), ("c", "u8")], "interface{}", "interface{}",
                   ["a", "b", "string([]byte{c})"], ["a", "b", "string([]byte{c})"], [])
     return K
@@ -41,13 +45,15 @@ def scripts(tier):
     return out
 
 
+LONG_SCRIPTS = [["I0", "I1", "I2", "D1", "D2", "I3", "I4"], ["I0", "I1", "I2", "I3", "I4", "D0", "D2"], ["I0", "I1", "I2", "I3", "D1", "D3", "I4"],
+                ["I0", "I1", "I2", "I3", "I4", "D2", "D3"], ["I0", "I1", "I2", "I3", "D0", "I4", "D1"]]
+
+
 def body(lang, ktype, kexprs, script):
     U32 = "u32" if lang == "wa" else "uint32"
     lines = []
-    if lang == "wa":
-        lines.append("keys := [3]%s{%s}" % (ktype, ", ".join(kexprs)))
-    else:
-        lines.append("keys := [3]%s{%s}" % (ktype, ", ".join(kexprs)))
+    nk = len(kexprs)
+    lines.append("keys := [%d]%s{%s}" % (nk, ktype, ", ".join(kexprs)))
     lines.append("m := make(map[%s]%s)" % (ktype, U32))
     lines.append("h := %s(0)" % U32)
     for step, op in enumerate(script):
@@ -64,7 +70,7 @@ def body(lang, ktype, kexprs, script):
     lines.append("cnt := %s(0)" % U32)
     lines.append("sum := %s(0)" % U32)
     lines.append("for k, v := range m {\n\t\tw, ok := m[k]\n\t\tif ok && w == v {\n\t\t\tcnt++\n\t\t}\n\t\tsum += v*40503 + 17\n\t}")
-    lines.append("for j := 0; j < 3; j++ {\n\t\tv, ok := m[keys[j]]\n\t\th = h*31 + v\n\t\tif ok {\n\t\t\th += 3\n\t\t}\n\t}")
+    lines.append("for j := 0; j < %d; j++ {" % nk + "\n\t\tv, ok := m[keys[j]]\n\t\th = h*31 + v\n\t\tif ok {\n\t\t\th += 3\n\t\t}\n\t}")
     lines.append("return h*31 + cnt*1000003 + sum")
     return "\n\t".join(lines)
 
@@ -73,19 +79,31 @@ WA_DECLS = """
 type vtKey :struct {
 	x, y: i32
 }
+
+global vtS: vtKey
+global vtT: vtKey
+global vtArr: [2]i32
 """
 GO_DECLS = """
 type vtKey struct{ x, y int32 }
+
+var vtS, vtT vtKey
+var vtArr [2]int32
 """
 
 
 def gen(tier):
     T = []
     K = kinds()
-    names = ["i32", "str", "i64", "struct"] if tier == "quick" else list(K)
+    names = ["i32", "str", "i64", "struct", "ptr"] if tier == "quick" else [k for k in K if k != "i32x5"]
     for kn in names:
         params, wk, gk, wke, gke, assume = K[kn]
         for si, sc in enumerate(scripts(tier)):
+            T.append(("map_%s_%s" % (kn, "_".join(sc)), params, "u32", body("wa", wk, wke[:3], sc), body("go", gk, gke[:3], sc), list(assume)))
+    # longer histories on five keys: symbolic i32 keys (every order and coincidence) and pointer keys that share blocks
+    for kn in ["i32x5", "ptr"]:
+        params, wk, gk, wke, gke, assume = K[kn]
+        for sc in (LONG_SCRIPTS[:3] if tier == "quick" else LONG_SCRIPTS):
             T.append(("map_%s_%s" % (kn, "_".join(sc)), params, "u32", body("wa", wk, wke, sc), body("go", gk, gke, sc), list(assume)))
     only = os.environ.get("VERIF_ONLY")
     if only:
